@@ -119,6 +119,10 @@ def check_ids(ck, recs):
                 bad = "ID is not the hash of the encoding"
             elif r["st2"] != 0 or r["id2"] != r["id"] or r["re2"] != r["re"]:
                 bad = "ID / encoding changes when the encoding is decoded and encoded again"
+            elif any(h(e[1]) != e[0] for e in r.get("extra") or []):
+                bad = "ID of a contained transaction is not the hash of its encoding after Init"
+            elif not all((r.get("flags") or {}).values()):
+                bad = "fails: %s" % ", ".join(k for k, v in sorted(r["flags"].items()) if not v)
         if bad:
             f = dict(kind="input", key="c08:id:%s:spec" % r["kind"], what="%s ID: %s on %s" % (r["kind"], bad, json.dumps(r)[:500]),
                      case=r)
@@ -170,6 +174,46 @@ def check_store(ck, recs):
                 "; ".join(bad[:4]), r["seed"], r["n"], r["cache"]), case={k: r[k] for k in ("k", "seed", "n", "cache")})
             f["spec_violated"] = True
             f["theorem_or_correspondence"] = "C08 store/load oracle (hashlib.sha256)"
+            ck.failures.append(f)
+
+
+def uvarint(n):
+    out = bytearray()
+    while n >= 0x80:
+        out.append((n & 0x7f) | 0x80)
+        n >>= 7
+    out.append(n)
+    return bytes(out)
+
+
+def check_big_writes(ck, recs):
+    """Writer primitives on payloads around 16384 bytes (too large for the in-Coq evaluation): the implementation must read its
+    own bytes back, and the bytes must be key, shortest length varint, payload (recomputed here)."""
+    for r in recs:
+        if r["k"] != "wb":
+            continue
+        ck.count()
+        ck.nontrivial(("wb", r["op"], r["fn"], len(r["out"])))
+        op, fn = r["op"], r["fn"]
+        key = uvarint(fn << 3 | 2)
+        if op in (2, 3):
+            payload = b"".join(uvarint(int(v)) for v in r["vz"])
+            exp = key + uvarint(len(payload)) + payload
+        elif op in (6, 13):
+            payload = b"".join(uvarint((int(v) << 1) ^ (int(v) >> 63)) for v in r["vz"])
+            exp = key + uvarint(len(payload)) + payload
+        elif op == 8:
+            payload = bytes(int(v) for v in r["vz"])
+            exp = key + uvarint(len(payload)) + payload
+        else:
+            exp = b"".join(key + uvarint(len(x) // 2) + bytes.fromhex(x) for x in r["vb"])
+        if not r.get("back_ok") or exp.hex() != r["out"]:
+            f = dict(kind="input", key="c08:Write:%s:spec" % OPNAMES[op], case=dict(r, k="w"),
+                     what="Writer primitive Write%s on a %d-byte payload: %s" % (
+                         OPNAMES[op], len(r["out"]) // 2, "the reader rejects or changes the writer's own bytes" if not r.get("back_ok")
+                         else "bytes differ from key ++ shortest length varint ++ payload"))
+            f["spec_violated"] = True
+            f["theorem_or_correspondence"] = "C08 big-payload writer oracle (Python)"
             ck.failures.append(f)
 
 
@@ -230,6 +274,7 @@ def evaluate(ck, recs):
     check_ids(ck, recs)
     check_store(ck, recs)
     check_nil(ck, recs)
+    check_big_writes(ck, recs)
 
 
 def nontrivial(ck, r):
@@ -246,7 +291,7 @@ def nontrivial(ck, r):
 def harness_args(ck):
     if ck.tier == "quick":
         return ["-exh", "2", "-rand", "400", "-structs", "4", "-mut", "4", "-lisk32", "40", "-store", "6"]
-    return ["-exh", "3", "-rand", "6000", "-structs", "40", "-mut", "20", "-lisk32", "3000", "-store", "150"]
+    return ["-exh", "3", "-rand", "6000", "-structs", "40", "-mut", "20", "-lisk32", "3000", "-store", "150", "-big"]
 
 
 def run(ck):
@@ -287,7 +332,10 @@ def run(ck):
         "boundary values, assets, events; block cache 1/2/100) saved by Chain.AddBlock on in-memory pebble and read back by "
         "GetBlock / GetBlockByHeight / GetBlockHeader / GetBlockHeaderByHeight / GetTransaction(s) / GetEvents through the writing "
         "and a fresh DataAccess: IDs, re-encoded bytes and ID = SHA-256(re-encoding). Nil elements inserted by reflection into every "
-        "[]*T field of decoded values: Encode must not panic and must write the same bytes. "
+        "[]*T field of decoded values: Encode must not panic and must write the same bytes. Payload sizes 126..130 (thorough also "
+        "16382..16386) bytes for packed arrays of one- and two-byte elements, bytes and strings, through the Writer primitives and "
+        "through every struct field of those kinds; field keys widened by m*2^32. IDs after Init-edit-Init, after a JSON round trip "
+        "with forged id members (transaction, header, block), after Sign with a nil aggregate commit. "
         "Distinct = by (method or struct, generator, strictness, outcome class, error class, input prefix/length).")
     ck.cov["exhaustive"] = True
     ck.extra["exhaustive_domain"] = "Reader primitives on byte strings up to length L over the 10-symbol boundary alphabet only"
